@@ -636,6 +636,22 @@ func TestVerifC17(t *testing.T) {
 			key := keys[i%len(keys)]
 			sealcase(key, v, keys[(i+1)%len(keys)])
 		}
+		// look-alike master keys: DISTINCT valid keys (16 / 32 bytes) that differ only by white space at the edges - what a
+		// key "normalised" before use would collapse into one. A value sealed under one must not read back under the other.
+		for _, pad := range []string{" ", "\t", "\n"} {
+			k16 := c17Keys16a
+			pairs := [][2]string{
+				{k16, k16 + strings.Repeat(pad, 16)},
+				{k16, strings.Repeat(pad, 16) + k16},
+				{k16, strings.Repeat(pad, 8) + k16 + strings.Repeat(pad, 8)},
+				{k16 + strings.Repeat(pad, 16), strings.Repeat(pad, 16) + k16},
+			}
+			for i, pr := range pairs {
+				v := values[(i+3)%len(values)]
+				sealcase(pr[0], v, pr[1])
+				sealcase(pr[1], v, pr[0])
+			}
+		}
 		// short strings: every length 0..40, first byte swept 0..255
 		for n := 0; n <= 40; n++ {
 			reps := 1
